@@ -178,6 +178,78 @@ c16!(c16_std06_read_any20, 24, read_instr_never_panics::<20>(&StdHooks06, 0, 0, 
 
 // (read_object - a loop of read_quad over arbitrary bytes - was tried for C16: no verdict in 600 s)
 
+// ---------------------------------------------------------------------------------------
+// C15 ("... or as a path/name in file metadata"): the 128-byte name fields of STD files (stage name,
+// BGM names and paths).  The Shift-JIS transcoder is replaced in both directions: `encode` returns
+// ARBITRARY NUL-free bytes (any length <= 6), `decode` records the bytes it is handed.  Contract:
+// what write_string_128 stores and read_string_128 hands to the decoder are exactly the encoded bytes.
+
+const NAME_MAX: usize = 6;
+static mut NAME_ENCODED: [u8; NAME_MAX] = [0; NAME_MAX];
+static mut NAME_ENCODED_LEN: usize = 0;
+static mut NAME_DECODED: [u8; NAME_MAX] = [0; NAME_MAX];
+static mut NAME_DECODED_LEN: usize = usize::MAX;
+
+pub fn stub_name_encode<S: AsRef<str> + ?Sized>(_str: &Sp<S>, _enc: crate::io::Encoding) -> Result<Encoded, Diagnostic> {
+    let mut v = Vec::with_capacity(140);
+    let mut i = 0;
+    unsafe { while i < NAME_ENCODED_LEN { v.push(NAME_ENCODED[i]); i += 1; } }
+    Ok(Encoded(v))
+}
+pub fn stub_name_decode(this: &Encoded, _enc: crate::io::Encoding) -> Result<String, Diagnostic> {
+    unsafe {
+        NAME_DECODED_LEN = this.0.len();
+        let mut i = 0;
+        while i < this.0.len() && i < NAME_MAX { NAME_DECODED[i] = this.0[i]; i += 1; }
+    }
+    Ok(String::new())
+}
+
+fn name_128_roundtrip<const N: usize>() {
+    let emitter = crate::verif_common::noop_emitter();
+    let raw: [u8; N] = kani::any();
+    let mut bytes = [0u8; NAME_MAX];
+    let mut k = 0;
+    while k < N { kani::assume(raw[k] != 0); bytes[k] = raw[k]; k += 1; }
+    unsafe { NAME_ENCODED = bytes; NAME_ENCODED_LEN = N; }
+    let name = sp!("name");      // content irrelevant: the transcoder is the stub
+    let mut w = BinWriter::from_writer(&emitter, "x", std::io::Cursor::new(Vec::<u8>::with_capacity(160)));
+    match write_string_128(&mut w, &emitter, &name) {
+        Ok(()) => {},
+        Err(e) => { core::mem::forget(e); assert!(false, "a short name must be accepted"); return; },
+    }
+    let written: Vec<u8> = w.into_inner().into_inner();
+    assert!(written.len() == 128, "a name field is 128 bytes");
+    let mut r = BinReader::from_reader(&emitter, "x", std::io::Cursor::new(written));
+    match read_string_128(&mut r, &emitter) {
+        Ok(s) => core::mem::forget(s),
+        Err(e) => { core::mem::forget(e); assert!(false, "written name cannot be read back"); return; },
+    }
+    unsafe {
+        assert!(NAME_DECODED_LEN == N, "decoder received a different number of bytes than were encoded");
+        let mut i = 0;
+        while i < N { assert!(NAME_DECODED[i] == bytes[i], "decoder received different bytes"); i += 1; }
+    }
+    core::mem::forget(emitter);
+}
+macro_rules! name_harness {
+    ($name:ident, $n:literal) => {
+        #[kani::proof]
+        #[kani::unwind(132)]
+        #[kani::stub(alloc::fmt::format, crate::verif_common::stub_fmt_format)]
+        #[kani::stub(crate::error::ErrorReported::new, crate::verif_common::stub_error_reported_new)]
+        #[kani::stub(crate::io::nice_display_path, crate::verif_common::stub_nice_display_path)]
+        #[kani::stub(crate::diagnostic::RootEmitter::emit, crate::verif_common::stub_root_emit)]
+        #[kani::stub(crate::io::Encoded::encode, stub_name_encode)]
+        #[kani::stub(crate::io::Encoded::decode, stub_name_decode)]
+        fn $name() { name_128_roundtrip::<$n>(); }
+    };
+}
+//@ C15 c15_std_name_128_n3 quick default,bounded BOUNDED encoded length 3 (transcoder stubbed in both directions): a name written by write_string_128 occupies exactly 128 bytes, and read_string_128 hands exactly the encoded bytes back to the decoder (no byte lost, none added), for every NUL-free encoded name
+name_harness!(c15_std_name_128_n3, 3);
+//@ C15 c15_std_name_128_n0 quick default,bounded BOUNDED empty name: same round trip through the 128-byte STD name field
+name_harness!(c15_std_name_128_n0, 0);
+
 #[cfg(kani)]
 #[path = "/verif/.cache/playback/std.rs"]
 mod playback;
